@@ -167,6 +167,30 @@ fn main() {
             acc.case("bar-index", &good_bars(), &caps, false);
         }
     }
+    // Part D': the last BAR slot. A 32-bit memory BAR there is usable; the 64-bit type encoding
+    // there has no upper half (the next register is not a BAR), so a window in it is invalid.
+    for k in 0..4 {
+        for (bk, addr) in [
+            (BarKind::Mem32 { size: 0x4000, prefetch: false, below_1m: false }, 0xfe00_0000u64),
+            (BarKind::Mem64 { size: 0x4000, prefetch: false }, 0xfe00_0000u64),
+            (BarKind::Mem64 { size: 0x4000, prefetch: true }, 0x9_0000_0000u64),
+        ] {
+            for (off, len) in [(0u32, 0x1000u32), (0x3000, 0x1000), (0x3fc8, 0x38)] {
+                let mut bars: Bars = vec![(GOOD_BAR as usize, BarKind::Mem64 { size: GOOD_BAR_SIZE, prefetch: true }, GOOD_BAR_ADDR)];
+                // GOOD_BAR is slot 4 and 64-bit: it occupies slot 5 as well, so use a 32-bit good BAR.
+                bars[0] = (0, BarKind::Mem32 { size: GOOD_BAR_SIZE, prefetch: false, below_1m: false }, 0xfd00_0000);
+                bars.push((5, bk, addr));
+                let mut caps = base.to_vec();
+                for c in caps.iter_mut() {
+                    c.bar = 0;
+                }
+                caps[k].bar = 5;
+                caps[k].offset = off;
+                caps[k].length = len;
+                acc.case("last-bar-slot", &bars, &caps, false);
+            }
+        }
+    }
     let (ev, classes, viols) = (acc.evals, acc.classes.clone(), std::mem::take(&mut acc.viols));
     c.add_sweep("construction: lists + values (<=2 deviating capabilities) + multipliers + BAR indices", ev, classes.len() as u64, true, J::obj().set("outcomes", J::Obj(classes.iter().map(|(k, v)| (k.clone(), J::i(*v))).collect())));
     c.add_tags(&classes);
